@@ -16,14 +16,16 @@ RULE = ("K-inject: every (axis, direction) of UniformPlaneSource (thorough: also
         "eps_r/mu_r placed as a UniformMaterialObject, fixed E (or H) polarisation at a random transverse angle, CW or "
         "pulse profile, uniform or non-uniform grid, static_amplitude_factor, plane index from the seed; material arrays "
         "seen by the update overwritten with isotropic / diagonal / full 9-component random arrays; 2 (thorough 3) time steps each, "
-        "forward and (at the first probed step; thorough: every step) inverse update; all cells of the plane compared (1e-9) with the Lean model (`inject`/`injectfull`), "
+        "OnOffSwitch default / delayed start / interval 2 (adjusted time step incl. the +0.5 of the H update, on-steps; thorough: no "
+        "injection while off); forward update_E/update_H and (at the first probed step; thorough: every step) "
+        "update_E_reverse/update_H_reverse; all cells of the plane compared (1e-9) with the Lean model (`inject`/`injectfull`), "
         "whose inputs (incident E/H per cell, Yee time offsets) are rebuilt in numpy independently of the source object "
         "(the temporal profile itself is evaluated through TemporalProfile.get_amplitude, its contract belongs to C41); "
         "the stored _E/_H/_time_offset_* of the source are also compared with that reconstruction. K-line: (2,2,n) "
         "periodic column, faces none along the axis, 6..10 steps of forward() vs the Lean `line` op for both "
         "polarisation pairs. Oracle (property scenario, thresholds as stated): 3x3 periodic cross-section, 10-cell PML "
         "along the axis, homogeneous background out of (eps_r, mu_r) = (1,1), (2.25,1), (1.5,2), (1,1.5), (3,1.5) (quick: one "
-        "dielectric/vacuum and one MAGNETIC background), >= 15 cells per wavelength in the medium, diagonal polarisation, PoyntingFluxDetector planes behind and in "
+        "dielectric/vacuum, one MAGNETIC background and one source with a delayed-start OnOffSwitch (start_after_periods=3)), >= 15 cells per wavelength in the medium, diagonal polarisation, PoyntingFluxDetector planes behind and in "
         "front, CW and pulse: time-integrated backward/forward power < 1e-3; quick: 2 of the 6 direction cases from the "
         "seed; thorough: all six x {CW, pulse} and GaussianPlaneSource (CW, radius 0.3..0.8 wavelengths, open space: PML on all faces, planes 10 cells away) < 10 %. "
         "non-trivial = every case (source on, non-zero increments).")
@@ -57,7 +59,33 @@ def gen_inject(rng, axis, direction, thorough, kind="uniform"):
     c["complex"] = rng.chance(0.15)
     c["radius_cells"] = rng.uniform(2.2, 3.4)
     c["seed"] = rng.np_seed()
+    # non-default OnOffSwitch: update_E/update_H then go through adjust_time_step_by_on_off (and `+ 0.5` for H)
+    c["switch"] = rng.choice(["default", "delayed", "interval2"])
+    if c["switch"] == "delayed":
+        c["n0"] = rng.randint(2, 9)
+        c["steps"] = sorted({c["n0"] + x for x in (rng.randint(0, 2), rng.randint(3, 14))})
+    elif c["switch"] == "interval2":
+        c["steps"] = sorted({2 * (x // 2) for x in c["steps"]} | {2 * rng.randint(1, 12)})[:3 if thorough else 2]
     return c
+
+
+def on_index(c, t):
+    """(is_on, number of on-steps before t) of the case's switch at integer step t"""
+    sw = c.get("switch", "default")
+    if sw == "delayed":
+        return t >= c["n0"], t - c["n0"]
+    if sw == "interval2":
+        return t % 2 == 0, t // 2
+    return True, t
+
+
+def adjusted_step(c, t):
+    """time-step value the source sees: `t` on the always-on fast path, else adjust_time_step_by_on_off(t) =
+    linear_interpolated_indexing at an integer point (two coincident corners of weight 1, sum/(2 + 1e-8))"""
+    if c.get("switch", "default") == "default":
+        return float(t)
+    idx = on_index(c, t)[1]
+    return (idx + idx) / (2 + 1e-8)
 
 
 def build_plane_scene(c, time_steps=30, detectors=None, pml=2, spacing=50e-9, wavelength=6.0e-7, normalize=True):
@@ -67,6 +95,13 @@ def build_plane_scene(c, time_steps=30, detectors=None, pml=2, spacing=50e-9, wa
     faces = {k: ("pml" if c.get("transverse") == "pml" else "periodic") for k in Y.FACES}
     lo, hi = {"none": ("none", "none"), "pml": ("pml", "pml"), "mixed": ("pml", "none")}[c["along"]]
     faces[Y.FACES[2 * ax]], faces[Y.FACES[2 * ax + 1]] = lo, hi
+
+    if c["widths"] is None:
+        grid0 = f.UniformGrid(spacing=spacing)
+    else:
+        edges0 = [np.concatenate([[0.0], np.cumsum(np.asarray(w, dtype=np.float64))]) for w in c["widths"]]
+        grid0 = f.RectilinearGrid(x_edges=jnp.asarray(edges0[0]), y_edges=jnp.asarray(edges0[1]), z_edges=jnp.asarray(edges0[2]))
+    dt = float(f.SimulationConfig(time=1e-15, grid=grid0, dtype=jnp.float64, backend="cpu", courant_factor=0.99).time_step_duration)
 
     def extra(vol):
         objs, cons = [], []
@@ -80,8 +115,17 @@ def build_plane_scene(c, time_steps=30, detectors=None, pml=2, spacing=50e-9, wa
             spectral_width=f.WaveCharacter(wavelength=c.get("pulse_width_factor", 3) * wavelength), center_wave=wave)
         shp = [None, None, None]
         shp[ax] = 1
+        sw = c.get("switch", "default")
+        if sw == "delayed":          # K: on from step n0 on
+            switch = f.OnOffSwitch(start_time=(c["n0"] - 0.5) * dt)
+        elif sw == "interval2":
+            switch = f.OnOffSwitch(interval=2)
+        elif sw == "after_periods":  # oracle: the documented way, in periods of the carrier
+            switch = f.OnOffSwitch(start_after_periods=c["start_periods"], period=wave.get_period())
+        else:
+            switch = f.OnOffSwitch()
         kw = dict(partial_grid_shape=tuple(shp), wave_character=wave, direction=c["direction"], temporal_profile=prof,
-                  static_amplitude_factor=c["amp"], name="src", normalize_by_energy=normalize)
+                  static_amplitude_factor=c["amp"], name="src", normalize_by_energy=normalize, switch=switch)
         kw["fixed_H_polarization_vector" if c["use_h"] else "fixed_E_polarization_vector"] = tuple(c["pol"])
         if c["kind"] == "uniform":
             src = f.UniformPlaneSource(**kw)
@@ -101,12 +145,6 @@ def build_plane_scene(c, time_steps=30, detectors=None, pml=2, spacing=50e-9, wa
             objs.append(d)
             cons.append(d.set_grid_coordinates(axes=ax, sides="-", coordinates=pos))
         return objs, cons
-    if c["widths"] is None:
-        grid = f.UniformGrid(spacing=spacing)
-    else:
-        edges = [np.concatenate([[0.0], np.cumsum(np.asarray(w, dtype=np.float64))]) for w in c["widths"]]
-        grid = f.RectilinearGrid(x_edges=jnp.asarray(edges[0]), y_edges=jnp.asarray(edges[1]), z_edges=jnp.asarray(edges[2]))
-    dt = float(f.SimulationConfig(time=1e-15, grid=grid, dtype=jnp.float64, backend="cpu", courant_factor=0.99).time_step_duration)
     sc = Y.build(c["shape"], faces, widths=c["widths"], spacing=spacing, pml_thickness=pml, extra_fn=extra,
                  complex_fields=True if c.get("complex") else None, time=(time_steps + 0.01) * dt, gradient=None)
     sc.source = [o for o in sc.objects.sources if o.name == "src"][0]
@@ -228,20 +266,30 @@ def k_inject(ctx, c, sample=False):
         ref = C0 * float(cfg.time_step_duration) / float(cfg.courant_number)
         grid_tok = ["n", f2h(ref), f2h(w[c["k0"]]), f2h(w[max(c["k0"] - 1, 0)])]
     lines, expect = [], []
+    # the switch bookkeeping of the placed source vs the case (on-steps, on-index)
+    if c.get("switch", "default") != "default":
+        T = int(cfg.time_steps_total)
+        ctx.expect_equal("source on-steps", c, [bool(x) for x in np.asarray(src._is_on_at_time_step_arr)][:T],
+                         [bool(on_index(c, u)[0]) for u in range(T)])
+        off_steps = [u for u in range(min(T, 12)) if not on_index(c, u)[0]]
+        if off_steps and ctx.thorough:
+            u = jnp.asarray(off_steps[-1], dtype=jnp.int32)
+            if np.any(np.asarray(update_E(u, arrays, sc.objects, cfg, True).fields.E) != 0) or \
+                    np.any(np.asarray(update_H(u, arrays, sc.objects, cfg, True).fields.H) != 0):
+                ctx.mismatch("source injects while switched off", c, {"t": off_steps[-1]})
     for t in c["steps"]:
         tt = jnp.asarray(t, dtype=jnp.int32)
-        # update_H hands `time_step + 0.5` to the sources (H lives at half steps)
-        ampE, ampH = amplitudes(sc, c, t + 0.5, offE), amplitudes(sc, c, t, offH)
+        # the sources see the on/off-adjusted step; update_H / update_H_reverse hand `… + 0.5` (H lives at half steps)
+        ta = adjusted_step(c, t)
+        ampE, ampH = amplitudes(sc, c, ta + 0.5, offE), amplitudes(sc, c, ta, offH)
         for inverse in ((False, True) if (ctx.thorough or t == c["steps"][0]) else (False,)):
             if not inverse:
                 dE = np.asarray(update_E(tt, arrays, sc.objects, cfg, True).fields.E)
                 dH = np.asarray(update_H(tt, arrays, sc.objects, cfg, True).fields.H)
             else:
-                # reverse updates subtract the same term: call the source methods directly with inverse=True
-                dE = np.asarray(src.update_E(E=arrays.fields.E, inv_permittivities=arrays.inv_permittivities,
-                                             inv_permeabilities=arrays.inv_permeabilities, time_step=tt, inverse=True))
-                dH = np.asarray(src.update_H(H=arrays.fields.H, inv_permittivities=arrays.inv_permittivities,
-                                             inv_permeabilities=arrays.inv_permeabilities, time_step=tt + 0.5, inverse=True))
+                # reverse updates on zero fields without conductivity: remove the source term, nothing else → −increment
+                dE = np.asarray(update_E_reverse(tt, arrays, sc.objects, cfg).fields.E)
+                dH = np.asarray(update_H_reverse(tt, arrays, sc.objects, cfg).fields.H)
             if c["complex"]:
                 if np.max(np.abs(dE.imag)) > 0 or np.max(np.abs(dH.imag)) > 0:
                     ctx.mismatch("quadrature branch taken for a real incident profile", c, "imaginary increment")
@@ -286,7 +334,7 @@ def k_inject(ctx, c, sample=False):
     ctx.case(sample=c if sample else None, nontrivial=(c["axis"], c["direction"], c["seed"]),
              **{f"axis{c['axis']}{c['direction']}": True, "kind": c["kind"], "tier": c["tier"], "along": c["along"],
                 "grid": "nonuniform" if c["widths"] else "uniform", "profile": c["profile"], "pol_given": "H" if c["use_h"] else "E",
-                "complex_fields": c["complex"], "k0_is_0": c["k0"] == 0})
+                "complex_fields": c["complex"], "k0_is_0": c["k0"] == 0, "switch": c.get("switch", "default")})
 
 
 # ------------------------------------------------------------------------------------------------ K-line
@@ -366,7 +414,7 @@ def k_line(ctx, c):
 MEDIA = [(1.0, 1.0), (2.25, 1.0), (1.5, 2.0), (1.0, 1.5), (3.0, 1.5)]     # homogeneous backgrounds (eps_r, mu_r)
 
 
-def gen_oracle(rng, axis, direction, profile, kind="uniform", medium=None):
+def gen_oracle(rng, axis, direction, profile, kind="uniform", medium=None, delayed=False):
     th = rng.uniform(0.5, 1.1) * rng.choice([1.0, -1.0])      # diagonal polarisation
     pol = [0.0, 0.0, 0.0]
     pol[(axis + 1) % 3], pol[(axis + 2) % 3] = float(np.cos(th)), float(np.sin(th))
@@ -377,6 +425,9 @@ def gen_oracle(rng, axis, direction, profile, kind="uniform", medium=None):
     # dielectric AND magnetic homogeneous backgrounds: the injected E/H ratio must be the impedance sqrt(mu/eps) of the
     # medium, which differs from the dielectric-only value exactly when mu_r != 1
     c["eps_r"], c["mu_r"] = medium if medium is not None else rng.choice(MEDIA)
+    if delayed:
+        # non-default OnOffSwitch: the source starts after 3 carrier periods (path through adjust_time_step_by_on_off)
+        c["switch"], c["start_periods"] = "after_periods", 3.0
     if kind == "gauss":
         c["eps_r"], c["mu_r"] = 1.0, 1.0
         c["radius_wl"] = rng.choice([0.3, 0.35, 0.45, 0.8])
@@ -415,7 +466,7 @@ def oracle_ratio(c):
     opp = "-" if c["direction"] == "+" else "+"
     # CW: ramp-up of 4 periods + a few periods of steady state; pulse: centre at 6 sigma_t + 5 sigma_t tail
     period_steps = cpw * n_med * np.sqrt(3.0) / 0.99
-    steps = int((7 if c["profile"] == "cw" else 8) * period_steps) + 6 * gap
+    steps = int(((7 if c["profile"] == "cw" else 8) + c.get("start_periods", 0.0)) * period_steps) + 6 * gap
     sc = build_plane_scene(cc, time_steps=steps, detectors=[("front", front, c["direction"]), ("back", back, opp)],
                            pml=pml, spacing=spacing, wavelength=wavelength)
     t, out = j["fdtdx"].run_fdtd(arrays=sc.arrays, objects=sc.objects, config=sc.config, key=j["jax"].random.PRNGKey(0),
@@ -443,9 +494,10 @@ def oracle_case(ctx, c):
     limit = 1e-3 if c["kind"] == "uniform" else 0.1
     ratio = abs(bwd) / fwd if fwd > 0 else float("inf")
     ctx.extra.setdefault("oracle_ratios", []).append({"axis": c["axis"], "direction": c["direction"], "kind": c["kind"],
-                                                      "profile": c["profile"], "eps_r": c["eps_r"], "mu_r": c["mu_r"], "ratio": ratio, "steps": steps})
+                                                      "profile": c["profile"], "eps_r": c["eps_r"], "mu_r": c["mu_r"], "switch": c.get("switch", "default"),
+                                                      "ratio": ratio, "steps": steps})
     ctx.case(nontrivial=("oracle", c["axis"], c["direction"], c["profile"], c["kind"]), oracle=c["kind"] + "/" + c["profile"],
-             oracle_medium=f"eps{c['eps_r']}/mu{c['mu_r']}",
+             oracle_medium=f"eps{c['eps_r']}/mu{c['mu_r']}", oracle_switch=c.get("switch", "default"),
              **{f"oracle_axis{c['axis']}{c['direction']}": True})
     if not (fwd > 0) or not ratio < limit:
         ctx.violation(c, oracle_fails(c) or f"ratio {ratio:.3e}")
@@ -476,10 +528,14 @@ def run(ctx):
                 oracle_case(ctx, gen_oracle(rng, a, d, prof))
         for (a, d) in order[:2]:
             oracle_case(ctx, gen_oracle(rng, a, d, "cw", kind="gauss"))
+        for (a, d) in SIX:
+            oracle_case(ctx, gen_oracle(rng, a, d, rng.choice(["cw", "pulse"]), delayed=True))
     else:
         (a1, d1), (a2, d2) = order[0], order[1]
         oracle_case(ctx, gen_oracle(rng, a1, d1, "cw", medium=rng.choice(MEDIA[:2])))
         oracle_case(ctx, gen_oracle(rng, a2, d2, "pulse", medium=rng.choice(MEDIA[2:])))      # magnetic background
+        a3, d3 = order[2]
+        oracle_case(ctx, gen_oracle(rng, a3, d3, "cw", medium=MEDIA[0], delayed=True))   # switched source
 
 
 def search(ctx, hints):
@@ -492,18 +548,20 @@ def search(ctx, hints):
                 todo.append(h)
             else:
                 med = (float(h.get("eps_r", 1.0)), float(h.get("mu_r", 1.0)))
+                sw = h.get("switch", "default") != "default"
                 for prof in ("cw", "pulse"):
-                    todo.append(gen_oracle(rng, h["axis"], h["direction"], prof, medium=med))
+                    todo.append(gen_oracle(rng, h["axis"], h["direction"], prof, medium=med, delayed=sw))
                 if h.get("kind") == "gauss":      # the 10 % bound is a statement about the carrier wavelength: CW only
                     todo.append(gen_oracle(rng, h["axis"], h["direction"], "cw", kind="gauss"))
     seen = set()
     for i, (a, d) in enumerate(SIX):
         for prof in ("cw", "pulse"):
             todo.append(gen_oracle(rng, a, d, prof, medium=MEDIA[(i + (prof == "pulse")) % len(MEDIA)]))
+        todo.append(gen_oracle(rng, a, d, "cw", medium=MEDIA[0], delayed=True))
     for (a, d) in SIX[:2]:
         todo.append(gen_oracle(rng, a, d, "cw", kind="gauss"))
     for c in todo:
-        key = (c["axis"], c["direction"], c["profile"], c["kind"], c["eps_r"], c["mu_r"])
+        key = (c["axis"], c["direction"], c["profile"], c["kind"], c["eps_r"], c["mu_r"], c.get("switch", "default"))
         if key in seen:
             continue
         seen.add(key)
